@@ -48,6 +48,9 @@ struct SImg {
   int accessors = 0;
   int dither = 0;
   int dox = 0, doy = 0;        // dither offset
+  int amap_has_clip = 0;       // the alpha map image carries a clip of its own (it clips the request when enabled for sources)
+  Boxes amap_clip;
+  int amap_client_clip = 0, amap_source_clipping = 0;
   template <class A> void io(A &a) {
     a.f("kind", kind);
     a.f("bits", bits);
@@ -78,6 +81,10 @@ struct SImg {
     a.f("dither", dither);
     a.f("dox", dox);
     a.f("doy", doy);
+    a.f("amap_has_clip", amap_has_clip);
+    a.f("amap_clip", amap_clip);
+    a.f("amap_client_clip", amap_client_clip);
+    a.f("amap_source_clipping", amap_source_clipping);
   }
 };
 
@@ -265,6 +272,16 @@ inline void build_img(const SImg &d, BuiltImg &b, bool is_dest) {
     if (d.has_alpha_map) {
       b.amap = make_image(d.amap);
       if (b.amap->im) {
+        if (d.amap_has_clip) {
+          std::vector<pixman_box32_t> bx;
+          for (auto &c : d.amap_clip) bx.push_back({(int32_t)c.x1, (int32_t)c.y1, (int32_t)c.x2, (int32_t)c.y2});
+          pixman_region32_t r;
+          pixman_region32_init_rects(&r, bx.data(), (int)bx.size());
+          pixman_image_set_clip_region32(b.amap->im, &r);
+          pixman_region32_fini(&r);
+          if (d.amap_client_clip) pixman_image_set_has_client_clip(b.amap->im, 1);
+          if (d.amap_source_clipping) pixman_image_set_source_clipping(b.amap->im, 1);
+        }
         // half of the images first get the same map at another origin: only the last call may count
         if (d.amap.seed & 1) pixman_image_set_alpha_map(b.im, b.amap->im, (int16_t)(d.ax + 3), (int16_t)(d.ay - 2));
         pixman_image_set_alpha_map(b.im, b.amap->im, (int16_t)d.ax, (int16_t)d.ay);
